@@ -12,6 +12,14 @@
   stalled between its CAS and the slot clear and a pusher stalled between its CAS and the
   slot write: those are just states with `pc = popClaimed / pushClaimed`).
 
+  The blocking wrappers `lockfree_ring_buffer_push` / `_pop` (loops around trypush / trypop)
+  and `lockfree_ring_buffer_size` are part of the model: the theorems below are about every
+  history mixing direct and blocking calls and size queries.  A blocking call is a wrapper
+  frame (`wrap t`) around ordinary attempts, so every state-level theorem (capacity, never
+  overwrite, exactly once in claim order, slot shapes) covers the attempts made on behalf of
+  blocking calls verbatim; `ret_bpush_value`, `ret_bpop_value`, `retry_justified_*`,
+  `size_bounds`, `size_value` are the clauses about the new return events.
+
   Ghost fields of `St` used in statements: `pushed` (values in the order their `high` CAS
   succeeded), `popped` (values in the order their `low` CAS succeeded), `written i` /
   `cleared i` (slot write / slot clear of claim index `i` happened), `arg t` (argument of
@@ -103,7 +111,7 @@ theorem ret_push_value (k : Nat) (es : List Ev) (s s' : St) (h : (sys (2 ^ k)).r
     ∃ i, i < s.high ∧ s.written i = true ∧ s.pushed[i]? = some (s.arg t) := by
   obtain ⟨hi, -⟩ := inv_of_run h
   have hpc := (step_retPush hs).2 (by decide)
-  have hok := hi.pcok t; rw [hpc] at hok
+  have hok := hi.pcok t; rw [hpc, pvalOf_no (step_retPush_wrap hs)] at hok
   rcases hok with hok | ⟨-, hok⟩
   · cases hok
   · exact hok
@@ -153,7 +161,7 @@ theorem failure_justified_push (k : Nat) (es : List Ev) (s s' : St)
   obtain ⟨-, hw⟩ := inv_of_run h
   have hwit := fail_push hw hs
   have hp := (step_retPush hs).1
-  obtain ⟨es1, es2, s1, q1, q2, q3, -, q5, q6⟩ :=
+  obtain ⟨es1, es2, s1, q1, q2, q3, -, q5, -, q6⟩ :=
     (witHist_of_run h).2 t (Pc.idle_of_pushing hp) hwit
   rw [hp] at q5
   refine ⟨es1, es2, s1, q1, q2, q6, q5, ?_⟩
@@ -173,7 +181,7 @@ theorem failure_justified_pop (k : Nat) (es : List Ev) (s s' : St)
   obtain ⟨-, hw⟩ := inv_of_run h
   have hwit := fail_pop hw hs
   have hp := (step_retPop hs).1
-  obtain ⟨es1, es2, s1, q1, q2, q3, q4, q5, q6⟩ :=
+  obtain ⟨es1, es2, s1, q1, q2, q3, q4, q5, q5', q6⟩ :=
     (witHist_of_run h).2 t (Pc.idle_of_popping hp) hwit
   have hnp : (s.pc t).pushing = false := by
     cases hpp : (s.pc t).pushing with
@@ -181,9 +189,165 @@ theorem failure_justified_pop (k : Nat) (es : List Ev) (s s' : St)
     | true => exact absurd ⟨hpp, hp⟩ (Pc.not_pushing_popping _)
   rw [hnp] at q5
   rcases (inv_of_run q2).1.justNow_elim q3 with h1 | ⟨h1, -⟩ | ⟨h1, h2⟩
-  · exact ⟨es1, es2, s1, q1, q2, q6, Pc.popping_of_not_pushing q4 q5, Or.inl h1⟩
+  · exact ⟨es1, es2, s1, q1, q2, q6, by rw [q5']; exact hp, Or.inl h1⟩
   · rw [q5] at h1; cases h1
   · exact ⟨es1, es2, s1, q1, q2, q6, h1, Or.inr h2⟩
+
+/-! ### the blocking wrappers `lockfree_ring_buffer_push` / `lockfree_ring_buffer_pop` -/
+
+/-- A blocking push returns only after an attempt of its own succeeded: its argument `v` (held
+    by the wrapper frame) was appended to `pushed` at some claim index `i` and written to the
+    slot; the value it reports is 1; `v` is not NULL. -/
+theorem ret_bpush_value (k : Nat) (es : List Ev) (s s' : St) (h : (sys (2 ^ k)).run es = some s)
+    (t r : Nat) (hs : (sys (2 ^ k)).step s (.retBPush t r) = some s') :
+    r = 1 ∧ ∃ v i, s.wrap t = .push v ∧ v ≠ 0 ∧ i < s.high ∧ s.written i = true ∧
+      s.pushed[i]? = some v := by
+  obtain ⟨hi, -⟩ := inv_of_run h
+  obtain ⟨hr, hpc, ⟨v, hw⟩, -, -⟩ := step_retBPush hs
+  have hok := hi.pcok t; rw [hpc, pvalOf_push hw] at hok
+  rcases hok with hok | ⟨-, i, h1, h2, h3⟩
+  · cases hok
+  · exact ⟨hr, v, i, hw, hi.wrap_push t v hw, h1, h2, h3⟩
+
+/-- A blocking pop returns only a non-NULL value `x` that an attempt of its own obtained: its
+    CAS claimed an index `l` with `pushed[l] = x` (so `x` is `popped[l]`: exactly once, in claim
+    order) and it has cleared that slot. -/
+theorem ret_bpop_value (k : Nat) (es : List Ev) (s s' : St) (h : (sys (2 ^ k)).run es = some s)
+    (t x : Nat) (hs : (sys (2 ^ k)).step s (.retBPop t x) = some s') :
+    x ≠ 0 ∧ s.wrap t = .pop ∧
+    ∃ l, l < s.low ∧ s.cleared l = true ∧ s.pushed[l]? = some x ∧ s.popped[l]? = some x := by
+  obtain ⟨hi, -⟩ := inv_of_run h
+  obtain ⟨hx, hpc, hw, -, -⟩ := step_retBPop hs
+  have hok := hi.pcok t; rw [hpc] at hok
+  obtain ⟨l, h1, h2, h3⟩ := hok hx
+  exact ⟨hx, hw, l, h1, h2, h3, hi.popped_getElem h1 h3⟩
+
+/-- A blocking call cannot end as a direct call: `retPush` / `retPop` are accepted only when
+    the thread has no wrapper frame, i.e. a call that began with `callBPush` / `callBPop` ends
+    with `retBPush` / `retBPop` (see `wrap_tracks_call`) and the theorems `ret_push_value`,
+    `failure_justified_push`, … are about direct calls. -/
+theorem direct_return_not_in_wrapper (k : Nat) (s s' : St) (t r : Nat) :
+    ((sys (2 ^ k)).step s (.retPush t r) = some s' → s.wrap t = .no) ∧
+    ((sys (2 ^ k)).step s (.retPop t r) = some s' → s.wrap t = .no) :=
+  ⟨step_retPush_wrap, step_retPop_wrap⟩
+
+/-- The wrapper frame `wrap t` is, by construction, set by thread `t`'s `callBPush v` /
+    `callBPop`, removed by its `retBPush` / `retBPop`, and touched by no other event. -/
+theorem wrap_tracks_call (k : Nat) (s s' : St) (e : Ev) (t : Nat)
+    (hs : (sys (2 ^ k)).step s e = some s') :
+    s'.wrap t = match (generalizing := false) e with
+      | .callBPush u v => if t = u then .push v else s.wrap t
+      | .callBPop u => if t = u then .pop else s.wrap t
+      | .retBPush u _ => if t = u then .no else s.wrap t
+      | .retBPop u _ => if t = u then .no else s.wrap t
+      | _ => s.wrap t :=
+  step_wrap hs t
+
+/-- In every reachable state the wrapper frame fits the program counter (a blocking push is
+    inside a push attempt or between two of them, a blocking pop likewise, an idle thread and
+    a thread inside `size` have none), and a blocking push holds a non-NULL argument. -/
+theorem wrap_shape (k : Nat) (es : List Ev) (s : St) (h : (sys (2 ^ k)).run es = some s) (t : Nat) :
+    (∀ v, s.wrap t = .push v → v ≠ 0 ∧ (s.pc t).pushing = true) ∧
+    (s.wrap t = .pop → (s.pc t).popping = true) ∧
+    ((s.pc t).pushing = false → (s.pc t).popping = false → s.wrap t = .no) := by
+  obtain ⟨hi, -⟩ := inv_of_run h
+  have hw := hi.wrapok t
+  refine ⟨fun v hv => ?_, fun hv => ?_, fun h1 h2 => hw.eq_no h1 h2⟩
+  · rw [hv] at hw; exact hw
+  · rw [hv] at hw; exact hw
+
+/-- A blocking push goes round its loop (the wrapper re-reads `high` after a failed attempt)
+    only if at some instant of that call another thread was inside an operation on the buffer,
+    or the buffer was full: the failure justification of `trypush`, for the attempts made on
+    behalf of a blocking push. -/
+theorem retry_justified_push (k : Nat) (es : List Ev) (s s' : St)
+    (h : (sys (2 ^ k)).run es = some s) (t x v : Nat) (hw : s.wrap t = .push v)
+    (hs : (sys (2 ^ k)).step s (.wLdHigh t x) = some s') :
+    ∃ es1 es2 s1, es = es1 ++ es2 ∧ (sys (2 ^ k)).run es1 = some s1 ∧
+      (∀ e ∈ es2, e.boundaryOf t = false) ∧ (s1.pc t).pushing = true ∧
+      ((∃ u, u ≠ t ∧ s1.pc u ≠ .idle) ∨ s1.high = s1.low + s1.size) := by
+  obtain ⟨-, hW⟩ := inv_of_run h
+  have hf := (step_wLdHigh_wrap hs).1 v hw
+  have hwit := fail_attempt_push hW hf
+  obtain ⟨hp0, hp, -, -, -⟩ := pushFailed_pc hf
+  obtain ⟨es1, es2, s1, q1, q2, q3, -, q5, -, q6⟩ := (witHist_of_run h).2 t hp0 hwit
+  rw [hp] at q5
+  refine ⟨es1, es2, s1, q1, q2, q6, q5, ?_⟩
+  rcases (inv_of_run q2).1.justNow_elim q3 with h1 | ⟨-, h1⟩ | ⟨h1, -⟩
+  · exact Or.inl h1
+  · exact Or.inr h1
+  · exact absurd ⟨q5, h1⟩ (Pc.not_pushing_popping _)
+
+/-- A blocking pop goes round its loop only if at some instant of that call another thread
+    was inside an operation on the buffer, or the buffer was empty. -/
+theorem retry_justified_pop (k : Nat) (es : List Ev) (s s' : St)
+    (h : (sys (2 ^ k)).run es = some s) (t x : Nat) (hw : s.wrap t = .pop)
+    (hs : (sys (2 ^ k)).step s (.wLdHigh t x) = some s') :
+    ∃ es1 es2 s1, es = es1 ++ es2 ∧ (sys (2 ^ k)).run es1 = some s1 ∧
+      (∀ e ∈ es2, e.boundaryOf t = false) ∧ (s1.pc t).popping = true ∧
+      ((∃ u, u ≠ t ∧ s1.pc u ≠ .idle) ∨ s1.high = s1.low) := by
+  obtain ⟨-, hW⟩ := inv_of_run h
+  have hf := (step_wLdHigh_wrap hs).2 hw
+  have hwit := fail_attempt_pop hW hf
+  obtain ⟨hp0, -, hp, -, -⟩ := popFailed_pc hf
+  obtain ⟨es1, es2, s1, q1, q2, q3, -, -, q5, q6⟩ := (witHist_of_run h).2 t hp0 hwit
+  rw [hp] at q5
+  refine ⟨es1, es2, s1, q1, q2, q6, q5, ?_⟩
+  rcases (inv_of_run q2).1.justNow_elim q3 with h1 | ⟨h1, -⟩ | ⟨-, h1⟩
+  · exact Or.inl h1
+  · exact absurd ⟨h1, q5⟩ (Pc.not_pushing_popping _)
+  · exact Or.inr h1
+
+/-! ### `lockfree_ring_buffer_size` -/
+
+/-- `size` never reports more than the capacity, never more than the number of items that were
+    in the buffer (claimed by a push, not yet claimed by a pop: `high - low`) at the instant it
+    read `high`, and never less than that number minus the pops that have taken effect since
+    (up to the return).  Trace-level: `es1` is a prefix of the trace that ends inside this
+    `size` call (no `call`/`ret` of `t` after it) — the instant `high` was read. -/
+theorem size_bounds (k : Nat) (es : List Ev) (s s' : St) (h : (sys (2 ^ k)).run es = some s)
+    (t n : Nat) (hs : (sys (2 ^ k)).step s (.retSize t n) = some s') :
+    n ≤ 2 ^ k ∧
+    ∃ es1 es2 s1, es = es1 ++ es2 ∧ (sys (2 ^ k)).run es1 = some s1 ∧
+      (∀ e ∈ es2, e.boundaryOf t = false) ∧
+      n ≤ s1.high - s1.low ∧ s1.high - s.low ≤ n := by
+  obtain ⟨hi, -⟩ := inv_of_run h
+  obtain ⟨hh, l, g, h2, hpc, hn⟩ := step_retSize hs
+  have hok := hi.pcok t; rw [hpc] at hok; simp only [PcOk] at hok
+  obtain ⟨p1, p2, p3, p4, p5, p6, p7, -⟩ := hok
+  obtain ⟨es1, es2, s1, q1, q2, q3, q4, q5⟩ := (sizeHist_of_run h).2 t |>.2 hh l g h2 hpc
+  refine ⟨by omega, es1, es2, s1, q1, q2, q5, by omega, by omega⟩
+
+/-- The exact value: with `h`, `l` the values of `high`, `low` that `size` read (in that order),
+    `g` the value of `low` when `high` was read and `h2` the value of `high` when `low` was
+    read (ghost components of the program counter, see `size_ghost_tracks`), the result is
+    `h - l` truncated at 0, which is (items at the first instant) − (pops between the two
+    reads) and also (items at the second instant) − (pushes between the two reads), both
+    truncated at 0.  In particular it is exact when nothing took effect between the reads. -/
+theorem size_value (k : Nat) (es : List Ev) (s s' : St) (h : (sys (2 ^ k)).run es = some s)
+    (t n : Nat) (hs : (sys (2 ^ k)).step s (.retSize t n) = some s') :
+    ∃ hh l g h2, s.pc t = .sizeGotBoth hh l g h2 ∧ n = hh - l ∧
+      g ≤ hh ∧ hh ≤ g + 2 ^ k ∧ l ≤ h2 ∧ h2 ≤ l + 2 ^ k ∧ g ≤ l ∧ hh ≤ h2 ∧ l ≤ s.low ∧ h2 ≤ s.high ∧
+      n = (hh - g) - (l - g) ∧ n = (h2 - l) - (h2 - hh) ∧
+      (l = g → n = hh - g) ∧ (h2 = hh → n = h2 - l) := by
+  obtain ⟨hi, -⟩ := inv_of_run h
+  obtain ⟨hh, l, g, h2, hpc, hn⟩ := step_retSize hs
+  have hok := hi.pcok t; rw [hpc] at hok; simp only [PcOk] at hok
+  obtain ⟨p1, p2, p3, p4, p5, p6, p7, p8⟩ := hok
+  exact ⟨hh, l, g, h2, hpc, hn, p3, p4, p6, p8, p1, p5, p2, p7, by omega, by omega,
+    fun _ => by omega, fun _ => by omega⟩
+
+/-- The ghost components used by `size_value` are what their names say: `size`'s load of
+    `high` stores the current `low` next to the value read, its load of `low` stores the
+    current `high`; events of other threads do not touch the program counter. -/
+theorem size_ghost_tracks (k : Nat) (s s' : St) (t : Nat) :
+    (∀ x, (sys (2 ^ k)).step s (.wLdHigh t x) = some s' → s.pc t = .sizeCalled →
+      x = s.high ∧ s'.pc t = .sizeGotHigh s.high s.low) ∧
+    (∀ x hh g, (sys (2 ^ k)).step s (.wLdLow t x) = some s' → s.pc t = .sizeGotHigh hh g →
+      x = s.low ∧ s'.pc t = .sizeGotBoth hh s.low g s.high) ∧
+    (∀ e, (sys (2 ^ k)).step s e = some s' → t ≠ e.tid → s'.pc t = s.pc t) :=
+  ⟨fun _ hs hpc => step_size_high hs hpc, fun _ _ _ hs hpc => step_size_low hs hpc,
+    fun _ hs ht => step_pc_other hs t ht⟩
 
 /-! ### non-vacuity: a concrete accepted trace
 
@@ -226,5 +390,85 @@ example : (((sys (2 ^ 1)).run (demo.take 17)).bind
 /-- a stalled pusher (`pushClaimed`) and a stalled popper (`popClaimed`) coexist -/
 example : ((sys (2 ^ 1)).run (demo.take 23)).map (fun s => (s.pc 0, s.pc 1)) =
     some (.popClaimed 0 11, .pushClaimed 13 1) := by decide
+
+/-! ### non-vacuity for the blocking wrappers and `size`: a second concrete accepted trace
+
+Capacity 2, three threads, blocking and direct calls mixed.  Thread 0 pushes 21, 22 (blocking),
+then its blocking push of 23 finds the buffer full: the attempt gives up before the CAS, the
+wrapper reads `high = 2`, `low = 0` and relaxes.  Thread 2's `size` reads `high = 2`, thread 1's
+blocking pop claims 21 between the two reads, `size` reads `low = 1` and reports 1 although 2
+items were present when it read `high`.  Thread 0's second attempt fails on the not yet cleared
+slot (no relax: `2 - 1 < 2`), the third succeeds.  Thread 1 pops 22, 23 and then spins on the
+empty buffer (relax) until thread 0's direct trypush of 24 feeds it.  A last `size` reports 0. -/
+
+def demo2 : List Ev := [
+  .callBPush 0 21, .ldLow 0 0, .ldHigh 0 0, .rdBuf 0 0 0, .casHigh 0 0 0 1 true, .wrBuf 0 0 21,
+  .retBPush 0 1,
+  .callBPush 0 22, .ldLow 0 0, .ldHigh 0 1, .rdBuf 0 1 0, .casHigh 0 1 1 2 true, .wrBuf 0 1 22,
+  .retBPush 0 1,
+  -- blocking push on the full buffer: attempt fails, wrapper sees full and relaxes   (15 … 21)
+  .callBPush 0 23, .ldLow 0 0, .ldHigh 0 2, .rdBuf 0 0 21, .wLdHigh 0 2, .wLdLow 0 0, .relax 0,
+  -- size reads high = 2 (2 items present) …                                        (22, 23)
+  .callSize 2, .wLdHigh 2 2,
+  -- … a blocking pop claims 21 …                                                   (24 … 28)
+  .callBPop 1, .ldHigh 1 2, .ldLow 1 0, .rdBuf 1 0 21, .casLow 1 0 0 1 true,
+  -- … size reads low = 1 and reports 1                                             (29, 30)
+  .wLdLow 2 1, .retSize 2 1,
+  -- second attempt of the blocking push: slot 0 not yet cleared, no relax          (31 … 35)
+  .ldLow 0 1, .ldHigh 0 2, .rdBuf 0 0 21, .wLdHigh 0 2, .wLdLow 0 1,
+  .wrBuf 1 0 0, .retBPop 1 21,
+  -- third attempt succeeds (claim index 2 wraps around to slot 0)
+  .ldLow 0 1, .ldHigh 0 2, .rdBuf 0 0 0, .casHigh 0 2 2 3 true, .wrBuf 0 0 23, .retBPush 0 1,
+  .callBPop 1, .ldHigh 1 3, .ldLow 1 1, .rdBuf 1 1 22, .casLow 1 1 1 2 true, .wrBuf 1 1 0,
+  .retBPop 1 22,
+  .callBPop 1, .ldHigh 1 3, .ldLow 1 2, .rdBuf 1 0 23, .casLow 1 2 2 3 true, .wrBuf 1 0 0,
+  .retBPop 1 23,
+  -- blocking pop on the empty buffer: attempt fails, wrapper sees empty and relaxes
+  .callBPop 1, .ldHigh 1 3, .ldLow 1 3, .rdBuf 1 1 0, .wLdHigh 1 3, .wLdLow 1 3, .relax 1,
+  -- a direct trypush feeds it
+  .callPush 0 24, .ldLow 0 3, .ldHigh 0 3, .rdBuf 0 1 0, .casHigh 0 3 3 4 true, .wrBuf 0 1 24,
+  .retPush 0 1,
+  .ldHigh 1 4, .ldLow 1 3, .rdBuf 1 1 24, .casLow 1 3 3 4 true, .wrBuf 1 1 0, .retBPop 1 24,
+  .callSize 2, .wLdHigh 2 4, .wLdLow 2 4, .retSize 2 0]
+
+example : ((sys (2 ^ 1)).run demo2).isSome = true := by decide
+
+example : ((sys (2 ^ 1)).run demo2).map (fun s => (s.pushed, s.popped, s.high, s.low)) =
+    some ([21, 22, 23, 24], [21, 22, 23, 24], 4, 4) := by decide
+
+/-- the hypothesis of `retry_justified_push` is satisfiable: the wrapper's re-read of `high`
+    after the failed attempt is an accepted step from a reachable state with a push frame -/
+example : (((sys (2 ^ 1)).run (demo2.take 18)).bind
+    (fun s => (sys (2 ^ 1)).step s (.wLdHigh 0 2))).isSome = true := by decide
+
+/-- a blocking push about to `cpu_relax()`: frame `push 23`, program counter `bpushFull` -/
+example : ((sys (2 ^ 1)).run (demo2.take 20)).map (fun s => (s.pc 0, s.wrap 0)) =
+    some (.bpushFull 23, .push 23) := by decide
+
+/-- the hypothesis of `size_bounds` / `size_value` is satisfiable, with a pop taking effect
+    between the two reads: 2 items when `high` was read (prefix of length 23), 1 reported -/
+example : ((sys (2 ^ 1)).run (demo2.take 23)).map (fun s => s.high - s.low) = some 2 := by decide
+
+example : (((sys (2 ^ 1)).run (demo2.take 29)).bind
+    (fun s => (sys (2 ^ 1)).step s (.retSize 2 1))).isSome = true := by decide
+
+example : ((sys (2 ^ 1)).run (demo2.take 29)).map (fun s => s.pc 2) =
+    some (.sizeGotBoth 2 1 0 2) := by decide
+
+/-- the hypotheses of `ret_bpush_value` / `ret_bpop_value` are satisfiable (third attempt of
+    the blocking push; the blocking pop that had to wait) -/
+example : (((sys (2 ^ 1)).run (demo2.take 42)).bind
+    (fun s => (sys (2 ^ 1)).step s (.retBPush 0 1))).isSome = true := by decide
+
+example : (((sys (2 ^ 1)).run (demo2.take 76)).bind
+    (fun s => (sys (2 ^ 1)).step s (.retBPop 1 24))).isSome = true := by decide
+
+/-- a blocking call cannot end as a direct call, and cannot report failure -/
+example : (((sys (2 ^ 1)).run (demo2.take 42)).bind
+    (fun s => (sys (2 ^ 1)).step s (.retPush 0 1))) = none := by decide
+
+example : (((sys (2 ^ 1)).run (demo2.take 20)).bind
+    (fun s => (sys (2 ^ 1)).step s (.retBPush 0 0))).isSome = false := by decide
+
 
 end LibfiberVerif.Ring
